@@ -288,3 +288,7 @@ def run(tier, seed):
                 rep.replayed += 1
     rep.stats = {"paths": rep.cases, "solver_queries": nq, "solver_s": ss, "obligations": 2 * rep.nontrivial + len(rep.violations), "discharged": 2 * rep.nontrivial, "violated": len(rep.violations)}
     return core.finish(rep)
+
+
+def replay_file(v):
+    return replay(v["replay"]["formula"], v["replay"].get("seed", 0), v["signature"]["what"])
